@@ -504,6 +504,13 @@ def same_value(a, b, rtol=1e-12):
 SPECIAL_OK = (Symbol, Integer, Rational, Float)
 
 
+def sstr(x, n=60):
+    try:
+        return str(x)[:n]
+    except Exception as e:
+        return "<unprintable: %s>" % type(e).__name__
+
+
 def micro_only(e1, e2):
     """the two expressions differ only in which of the three micro prefixes (u, U+00B5, U+03BC) they print"""
     n = lambda e: str(e).replace("µ", "u").replace("μ", "u")
@@ -545,14 +552,15 @@ def _rt_check(u, which):
     if u2.registry is not u.registry and u2.registry.lut is not u.registry.lut:
         return ("registry", "%r re-read into another registry" % s[:80])
     if not (u2.dimensions == u.dimensions):
-        return ("dimensions", "%r: %s vs %s" % (s[:80], u2.dimensions, u.dimensions))
+        return ("dimensions", "%r: %s vs %s" % (s[:80], sstr(u2.dimensions), sstr(u.dimensions)))
     if u2.base_offset != u.base_offset:
-        if u.base_offset != 0 and u2.base_offset == 0 and not u.expr.is_Symbol:
+        if (u.base_offset == 0) != (u2.base_offset == 0):
+            # a bare symbol carries its offset, a product/coefficient expression is read without one (or vice versa)
             return ("offset-lost-in-product", "%r: offset %r, re-read %r" % (s[:80], u.base_offset, u2.base_offset))
         return ("offset", "%r: offset %r, re-read %r" % (s[:80], u.base_offset, u2.base_offset))
     if not same_value(float(u2.base_value), float(u.base_value)):
-        if any(v == 0 or not math.isfinite(v) for v in (u.base_value, u2.base_value)):
-            # one of the two computations left the float range in an intermediate product
+        if any(v == 0 or not math.isfinite(v) or not (1e-150 < abs(v) < 1e150) for v in (u.base_value, u2.base_value)):
+            # one of the two computations left the normal float range in an intermediate product / square
             return ("scale:float-range", "%r: base_value %r, re-read %r" % (s[:80], u.base_value, u2.base_value))
         if same_value(float(u2.base_value), -float(u.base_value)):
             return ("scale:sign", "%r: base_value %r, re-read %r" % (s[:80], u.base_value, u2.base_value))
@@ -571,7 +579,7 @@ def _rt_check(u, which):
                 cls = "expr:micro-sign"
             else:
                 cls = "expr"
-            return (cls, "%r: expr %r re-read as %r" % (s[:80], u.expr, u2.expr))
+            return (cls, "%r: expr %s re-read as %s" % (s[:80], sstr(u.expr), sstr(u2.expr)))
         if hash(u2) != hash(u):
             return ("hash", "%r: hash differs" % s[:80])
     return None
@@ -595,7 +603,7 @@ def check_string(s, regname, origin):
         u = None
         st = "exc"
         site = innermost_unyt_frame(e)
-        out.append(("C20[total:%s@%s]" % (type(e).__name__, site),
+        out.append(("C20[total:escapes@%s]" % site,
                     "Unit(%r) raised %s: %s (innermost unyt frame %s) instead of UnitParseError" % (
                         s[:200], type(e).__name__, str(e)[:100], site), ("total", s, regname)))
     if canary_hit():
@@ -606,7 +614,7 @@ def check_string(s, regname, origin):
         if vc is not None:
             out.append(("C20[vocab:accepted:%s]" % vc,
                         "Unit(%r) succeeded (= %r) although the string uses a construct outside the unit "
-                        "vocabulary (%s)" % (s[:200], str(u.expr)[:60], vc), ("vocab", s, regname)))
+                        "vocabulary (%s)" % (s[:200], sstr(u.expr), vc), ("vocab", s, regname)))
         for which in ("str", "repr"):
             r = rt_check(u, which)
             if r is not None:
